@@ -1,6 +1,6 @@
 import Amgcl.Driver.Util
 import Amgcl.Model.Adapters
-import Amgcl.Model.AdaptersIlu0
+import Amgcl.Model.RelaxIlu
 import Amgcl.Model.Rsqrt
 /-!
 handlers for the adapter ops (C13, C17); result parts are separated by `|`
@@ -146,7 +146,7 @@ def handle (op : String) (args : List String) : Option String :=
         let k ← pNat; let A ← pCRS; let m ← pNat; let rs ← pMany m pVec; pure (k, A, rs)) args
       fun (k, A, rs) =>
         if k ≤ 1 && A.wfb && sq A && fullDiag A && rs.all (·.size == A.nrows) then
-          let sm := Ilu.ilu0 (1 : Rat)
+          let sm := Relax.ilu0 (1 : Rat)
           showSetup (if k = 0 then asPrecond sm A else asPrecondShared sm A) fun p =>
             joinSp (showCRS p.A :: rs.flatMap (fun r => [bar, showVec (p.apply sm r)]))
         else badInput
